@@ -292,9 +292,13 @@ func (g *GRPCSvc) setUnion(rv reflect.Value, attr string, t *spec.Type, v any) e
 	}
 	var rt reflect.Type
 	if alt.T.K == spec.KUser {
-		if td := g.S.Spec.TypeDefByName(alt.T.Ref); td != nil && td.Kind != "alias" {
+		if td := g.S.Spec.TypeDefByName(alt.T.Ref); td != nil {
 			if st := g.typeSym(alt.T.Ref); st != nil {
-				rt = reflect.PointerTo(st)
+				if td.Kind == "alias" {
+					rt = st // the alias type itself is the alternative
+				} else {
+					rt = reflect.PointerTo(st)
+				}
 			}
 		}
 	}
